@@ -308,3 +308,114 @@ def disc_spec(d):
             o["responses"]["200"]["content"] = {"application/json": {"schema": _ref(op["uses"])}}
         paths["/p%d" % i] = {"post": o}
     return {"openapi": "3.1.0", "info": {"title": "t", "version": "1"}, "paths": paths, "components": {"schemas": S}}
+# ---------------------------------------------------------------------------------------------
+# C16: specs of the validation fragment.  desc = {schemas:[{name,fields:[{name,req,s}]}], aliases:[{name,to}],
+# params:[{name,in,req,s}], body, resp, echo}; s = {"k":"prim","c":cons} | {"k":"arrP","c":cons,"items":cons} |
+# {"k":"arrR","c":cons,"to":name} | {"k":"ref","to":name}; numbers in cons travel as decimal strings.
+import re as _re
+
+NUM_KEYS = ("minimum", "maximum", "exclusiveMinimum", "exclusiveMaximum")
+
+
+def num_json(s):
+    return int(s) if _re.fullmatch(r"-?\d+", s) else float(s)
+
+
+def cons_schema(c):
+    o = {}
+    for k, v in c.items():
+        if v is None:
+            continue
+        if k == "ty":
+            o["type"] = v
+        elif k == "enum":
+            if v:
+                o["enum"] = ["aa", "bb"]
+        elif k in NUM_KEYS:
+            o[k] = num_json(v)
+        else:
+            o[k] = v
+    return o
+
+
+def fs_schema(s):
+    ref = lambda n: {"$ref": "#/components/schemas/" + n}
+    k = s["k"]
+    if k == "prim":
+        return cons_schema(s["c"])
+    if k == "arrP":
+        return dict(cons_schema(s["c"]), items=cons_schema(s["items"]))
+    if k == "arrR":
+        return dict(cons_schema(s["c"]), items=ref(s["to"]))
+    if k == "ref":
+        return ref(s["to"])
+    raise ValueError(k)
+
+
+def valid_spec(desc):
+    ref = lambda n: {"$ref": "#/components/schemas/" + n}
+    names = [s["name"] for s in desc["schemas"]]
+    if names != sorted(set(names)):
+        raise ValueError("schemas must be sorted and distinct")
+    comps = {}
+    for s in desc["schemas"]:
+        fn = [f["name"] for f in s["fields"]]
+        if fn != sorted(set(fn)) or not all(_re.fullmatch(r"[a-z][a-z0-9_]*", x) for x in fn):
+            raise ValueError("fields must be sorted, distinct snake_case")
+        o = {"type": "object", "properties": {f["name"]: fs_schema(f["s"]) for f in s["fields"]}}
+        req = [f["name"] for f in s["fields"] if f["req"]]
+        if req:
+            o["required"] = req
+        comps[s["name"]] = o
+    for a in desc.get("aliases", []):
+        if a["name"] in comps:
+            raise ValueError("alias name clash")
+        comps[a["name"]] = {"type": "array", "items": ref(a["to"])}
+    known = set(comps)
+    for s in desc["schemas"]:
+        for f in s["fields"]:
+            t = f["s"].get("to")
+            if t is not None and t not in known:
+                raise ValueError("dangling ref")
+    params, path = [], "/op"
+    pn = [(p["name"], p["in"]) for p in desc.get("params", [])]
+    if len(set(pn)) != len(pn):
+        raise ValueError("duplicate parameter")
+    for p in desc.get("params", []):
+        if not _re.fullmatch(r"[a-z][a-z0-9_]*", p["name"]):
+            raise ValueError("param name")
+        if p["s"]["k"] not in ("prim", "arrP"):
+            raise ValueError("param kind")
+        o = {"name": p["name"], "in": p["in"], "schema": fs_schema(p["s"])}
+        if p["in"] == "path":
+            o["required"] = True
+            path += "/{%s}" % p["name"]
+        elif p["req"]:
+            o["required"] = True
+        params.append(o)
+    op = {"operationId": "op", "responses": {"200": {"description": "ok"}}}
+    if params:
+        op["parameters"] = params
+    for k in ("body", "resp", "echo"):
+        if desc.get(k) is not None and desc[k] not in known:
+            raise ValueError("dangling " + k)
+    if desc.get("body") is not None:
+        op["requestBody"] = {"required": True, "content": {"application/json": {"schema": ref(desc["body"])}}}
+    if desc.get("resp") is not None:
+        op["responses"]["200"]["content"] = {"application/json": {"schema": ref(desc["resp"])}}
+    paths = {path: {"post": op}}
+    if desc.get("echo") is not None:
+        paths["/echo"] = {"get": {"operationId": "echo", "responses": {"200": {"description": "ok", "content": {"application/json": {"schema": ref(desc["echo"])}}}}}}
+    # every schema must be reachable from an operation (ReferencedOnly scope drops the others)
+    succ = {s["name"]: [f["s"]["to"] for f in s["fields"] if f["s"].get("to")] for s in desc["schemas"]}
+    for a in desc.get("aliases", []):
+        succ[a["name"]] = [a["to"]]
+    seen, todo = set(), [desc.get(k) for k in ("body", "resp", "echo") if desc.get(k)]
+    while todo:
+        n = todo.pop()
+        if n not in seen:
+            seen.add(n)
+            todo += succ.get(n, [])
+    if seen != known:
+        raise ValueError("unreachable schema")
+    return {"openapi": "3.1.0", "info": {"title": "t", "version": "1"}, "paths": paths, "components": {"schemas": comps}}
